@@ -441,7 +441,31 @@ def r20_5(ctx):
     ctx.analysed(u.qual)
     src = ast.unparse(u.node)
     construct = "_is_undefined_reference/decimal, hex and float literals are not undefined symbols"
-    ok = "not kconfiglib._looks_like_number(sym.name)" in src and "not kconfiglib.is_float(sym.name)" in src
+    from .common import expand_locals
+
+    def excludes(fn_name):
+        # a call fn(<the symbol's name>) that makes the answer False: `... and not fn(name)` in the returned conjunction, or
+        # `if fn(name) [or ...]: return False`
+        for c in ast.walk(u.node):
+            if not (isinstance(c, ast.Call) and ast.unparse(c.func).split(".")[-1] == fn_name and len(c.args) == 1
+                    and expand_locals(u.node, c.args[0]) == "sym.name"):
+                continue
+            p_ = repo.parent(c)
+            if isinstance(p_, ast.UnaryOp) and isinstance(p_.op, ast.Not):
+                q = repo.parent(p_)
+                while isinstance(q, ast.BoolOp) and isinstance(q.op, ast.And):
+                    q = repo.parent(q)
+                if isinstance(q, ast.Return):
+                    return True
+            else:
+                q, child = p_, c
+                while isinstance(q, ast.BoolOp) and isinstance(q.op, ast.Or):
+                    q, child = repo.parent(q), q
+                if isinstance(q, ast.If) and q.test is child and len(q.body) == 1 and isinstance(q.body[0], ast.Return) \
+                        and isinstance(q.body[0].value, ast.Constant) and q.body[0].value.value is False:
+                    return True
+        return False
+    ok = excludes("_looks_like_number") and excludes("is_float")
     (ctx.ok(construct, u.loc()) if ok else
      ctx.bad(construct, "the literal test no longer covers both _looks_like_number (decimal, 0x...) and is_float: such a literal in a relation is folded to n", u.loc()))
     w = repo.func(f"{DOC}:write_menu_item")
